@@ -611,6 +611,11 @@ func (fr *Frame) loopHead(b *ssa.BasicBlock, li *loopInfo) Heap {
 			m := env.eval(li.spec.Decreases.Expr)
 			li.m0 = u.define("measure", m.S, m.T)
 		}
+		if li.spec.Split != nil {
+			v := env.eval(li.spec.Split.Expr)
+			t := u.define("split", v.S, v.T)
+			u.splits = append(u.splits, splitInfo{term: t, sort: v.S, lo: li.spec.SplitLo, hi: li.spec.SplitHi, from: len(u.obls), reach: fr.reach[b.Index], text: li.spec.Split.Text})
+		}
 	}
 	return heap
 }
